@@ -714,7 +714,12 @@ pub fn par_y(rng: &mut Rng, size: usize, out: &mut Vec<String>) {
         let cap = *rng.pick(&[3usize, 8, 16, 33, 64, 200, 4096]);
         let stop = if rng.chance(1, 4) { Some(rng.range(1, 6)) } else { None };
         // a third of the cases go through the set-level API (`read_parallel` + `ReusableReader`)
-        let api = if rng.chance(1, 3) { format!("{}2", fmt) } else { fmt.to_string() };
+        // a third of the cases go through the set-level API, half of those with a non-default growth policy
+        let api = match rng.below(6) {
+            0 => format!("{}2", fmt),
+            1 => format!("{}3", fmt),
+            _ => fmt.to_string(),
+        };
         out.push(format!(
             "Y {} {} {} {} {} {}",
             api, t, q, cap, stop.map(|v| v.to_string()).unwrap_or("-".to_string()), hex_or_dash(&input)
@@ -930,29 +935,40 @@ pub fn alloc_cases(fmt: &str, rng: &mut Rng, n: usize, out: &mut Vec<String>) {
         let hl = rng.range(1, 8);
         let sl = rng.range(1, 30);
         let nl = rng.range(1, 4);
-        let crlf = rng.chance(1, 3);
-        let t: &[u8] = if crlf { b"\r\n" } else { b"\n" };
-        let mut f = vec![];
+        // line terminators: all LF, all CRLF, or chosen per line; in a quarter of the files the last line has none
+        let mode = rng.below(4);
+        let mut lines: Vec<Vec<u8>> = vec![];
         for _ in 0..nrec {
             if fmt == "fa" {
-                f.push(b'>');
-                f.extend(rand_bytes(rng, hl, b"abcdef"));
-                f.extend_from_slice(t);
+                let mut h = vec![b'>'];
+                h.extend(rand_bytes(rng, hl, b"abcdef"));
+                lines.push(h);
                 for _ in 0..nl {
-                    f.extend(rand_bytes(rng, sl, b"ACGT"));
-                    f.extend_from_slice(t);
+                    lines.push(rand_bytes(rng, sl, b"ACGT"));
                 }
             } else {
-                f.push(b'@');
-                f.extend(rand_bytes(rng, hl, b"abcdef"));
-                f.extend_from_slice(t);
-                f.extend(rand_bytes(rng, sl, b"ACGT"));
-                f.extend_from_slice(t);
-                f.push(b'+');
-                f.extend_from_slice(t);
-                f.extend(rand_bytes(rng, sl, b"IJK"));
-                f.extend_from_slice(t);
+                let mut h = vec![b'@'];
+                h.extend(rand_bytes(rng, hl, b"abcdef"));
+                lines.push(h);
+                lines.push(rand_bytes(rng, sl, b"ACGT"));
+                lines.push(vec![b'+']);
+                lines.push(rand_bytes(rng, sl, b"IJK"));
             }
+        }
+        let open_end = rng.chance(1, 4);
+        let mut f = vec![];
+        let nlines = lines.len();
+        for (i, l) in lines.into_iter().enumerate() {
+            f.extend(l);
+            if i + 1 == nlines && open_end {
+                break;
+            }
+            let crlf = match mode {
+                0 | 1 => false,
+                2 => true,
+                _ => rng.chance(1, 2),
+            };
+            f.extend_from_slice(if crlf { b"\r\n" } else { b"\n" });
         }
         let rec_size = f.len() / nrec;
         let cap = *rng.pick(&[rec_size * 3 + 7, rec_size * 5 + 1, 1024, 4096, 65536]);
